@@ -49,6 +49,35 @@ def _seeded_case(args):
         shutil.rmtree(root, ignore_errors=True)
 
 
+def _benign_case(args):
+    bid, d, repo, rules = args
+    root = tempfile.mkdtemp(prefix="sa_benign_")
+    try:
+        shutil.copytree(os.path.join(repo, "statham"), os.path.join(root, "statham"),
+                        ignore=shutil.ignore_patterns("__pycache__"))
+        ap = subprocess.run(["patch", "-p1", "-s", "-f", "-d", root, "-i", os.path.join(d, "patch.diff")],
+                            capture_output=True, text=True)
+        if ap.returncode != 0:
+            return {"id": bid, "status": "not-applicable"}
+        from . import rules_all  # noqa: F401
+        ctx = Ctx(root)
+        fired, errors = {}, {}
+        for rid in rules:
+            try:
+                v = ctx.rule_result(rid).violations()
+                if v:
+                    fired[rid] = [f"{o.site.split('::')[-1]} :: {o.construct[:60]}" for o in v[:2]]
+            except AnalysisError as exc:
+                errors[rid] = str(exc)[:160]
+        if fired:
+            return {"id": bid, "status": "FALSE-ALARM", "detail": fired}
+        if errors:
+            return {"id": bid, "status": "unrecognised", "detail": errors}
+        return {"id": bid, "status": "silent"}
+    finally:
+        shutil.rmtree(root, ignore_errors=True)
+
+
 ACCEPTED_MISSES = {
     "C06-s1": "title-format regex round trip (needs the identity itself, which the rules do not decide; see DESIGN section 6)",
 }
@@ -91,6 +120,25 @@ def run(pid, spec, ctx, repo):
                                       if r["status"] == "MISSED" and r["id"] in ACCEPTED_MISSES else ""),
                                       "rules_firing": sorted(r["detail"]) if isinstance(r["detail"], dict) else []}
                                      for r in seeded_results]})
+    # behaviour-preserving refactorings: the property's rules must stay silent on every one
+    bbase = os.path.join(VERIF, "benign")
+    bwork = []
+    if os.path.isdir(bbase):
+        for bid in sorted(os.listdir(bbase)):
+            d = os.path.join(bbase, bid)
+            if os.path.exists(os.path.join(d, "patch.diff")):
+                bwork.append((bid, d, repo, [r for r in rules if r not in ("N2", "A3")]))
+    bres = []
+    if bwork:
+        import multiprocessing as mp_
+        with mp_.get_context("fork").Pool(min(16, len(bwork))) as pool:
+            bres = pool.map(_benign_case, bwork, chunksize=1)
+    bc = {}
+    for r in bres:
+        bc[r["status"]] = bc.get(r["status"], 0) + 1
+        if r["status"] in ("FALSE-ALARM", "unrecognised"):
+            problems.append(f"benign refactoring {r['id']}: {r['status']} {r.get('detail')}")
+    notes.append({"benign_refactorings": bc})
     if pid in ("C09", "C10", "C20", "C02"):
         notes.append({"dependency_lint": dependency_lint()})
     if problems:
